@@ -170,13 +170,30 @@ mod verif_c08_table {
             u64::from_le(word) == raw,
             "C08.PageTable_layout.entries_little_endian_in_index_order: the u64 at base + 8*i is the little-endian entry"
         );
-        // and nothing else in the table was written
+    }
+
+    // A store to slot i (through the public API) changes no byte of the table outside
+    // base + 8*i .. base + 8*i + 8 (symbolic slot, symbolic other byte; the table is fresh, so
+    // "unchanged" is "still zero").
+    //@ obligation C08 C08.PageTable_layout.store_to_slot_leaves_other_bytes
+    #[kani::proof]
+    fn c08_table_store_leaves_other_bytes() {
+        let mut t = PageTable::new();
+        let i: usize = kani::any();
+        kani::assume(i < 512);
+        let a: u64 = kani::any();
+        kani::assume(a < (1u64 << 52) && a & 0xfff == 0);
+        let x: u64 = kani::any();
+        kani::assume(x & !0xfff0_0000_0000_0fffu64 == 0);
         let j: usize = kani::any();
         kani::assume(j < 4096 && (j < 8 * i || j >= 8 * i + 8));
+        kani::cover!(true, "c08_table_store_leaves_other_bytes: reachable");
+        t[i].set_addr(PhysAddr::new(a), PageTableFlags::from_bits_truncate(x));
+        let bytes = &t as *const PageTable as *const u8;
         let other = unsafe { *bytes.add(j) };
         assert!(
             other == 0,
-            "C08.PageTable_layout.entries_little_endian_in_index_order: a store to slot i leaves every other byte"
+            "C08.PageTable_layout.store_to_slot_leaves_other_bytes: a store to slot i leaves every other byte"
         );
     }
 
@@ -223,8 +240,8 @@ mod verif_c08_table {
     }
 
     // A store through the i-th item of iter_mut() is read back through t[i]
-    // and through the i-th item of iter() (symbolic i, observed aliasing).
-    //@ obligation C08 C08.PageTable_iter_mut.store_seen_by_index_and_iter
+    // (symbolic i, observed aliasing; iter() is tied to the same slots by address above).
+    //@ obligation C08 C08.PageTable_iter_mut.store_seen_by_index
     #[kani::proof]
     #[kani::unwind(513)]
     fn c08_table_iter_mut_store_seen() {
@@ -242,19 +259,7 @@ mod verif_c08_table {
         }
         assert!(
             t[i].entry == v,
-            "C08.PageTable_iter_mut.store_seen_by_index_and_iter: t[i] reads the word stored through item i"
-        );
-        let mut seen: u64 = 0;
-        let mut n: usize = 0;
-        for e in t.iter() {
-            if n == i {
-                seen = e.entry;
-            }
-            n += 1;
-        }
-        assert!(
-            seen == v,
-            "C08.PageTable_iter_mut.store_seen_by_index_and_iter: item i of iter() reads it too"
+            "C08.PageTable_iter_mut.store_seen_by_index: t[i] reads the word stored through item i"
         );
     }
 
@@ -350,7 +355,7 @@ mod verif_c08_table {
         );
     }
 
-    //@ obligation C08 C08.PageTable_is_empty.false_if_any_word_nonzero
+    //@ obligation C08 C08.PageTable_is_empty.false_if_any_word_nonzero tier=thorough
     #[kani::proof]
     #[kani::unwind(513)]
     fn c08_table_is_empty_false_if_nonzero() {
@@ -362,6 +367,25 @@ mod verif_c08_table {
         assert!(
             !t.is_empty(),
             "C08.PageTable_is_empty.false_if_any_word_nonzero: a table with a non-zero word is not empty"
+        );
+    }
+
+    // quick-tier stand-in for (b): all words zero except one symbolic slot with a symbolic non-zero word.
+    // (The general harness above takes ~180 s.)
+    //@ obligation C08 C08.PageTable_is_empty.false_if_one_word_nonzero
+    #[kani::proof]
+    #[kani::unwind(513)]
+    fn c08_table_is_empty_false_if_one_nonzero() {
+        let mut t = PageTable::new();
+        let i: usize = kani::any();
+        kani::assume(i < 512);
+        let v: u64 = kani::any();
+        kani::assume(v != 0);
+        t.entries[i].entry = v;
+        kani::cover!(true, "c08_table_is_empty_false_if_one_nonzero: reachable");
+        assert!(
+            !t.is_empty(),
+            "C08.PageTable_is_empty.false_if_one_word_nonzero: one non-zero word makes the table non-empty"
         );
     }
 
@@ -379,20 +403,18 @@ mod verif_c08_table {
         );
     }
 
-    // Clone copies all 4096 bytes.
-    //@ obligation C08 C08.PageTable_clone.same_bytes
+    // Clone copies all 512 words (symbolic contents, symbolic slot).
+    //@ obligation C08 C08.PageTable_clone.same_words
     #[kani::proof]
-    fn c08_table_clone_same_bytes() {
+    fn c08_table_clone_same_words() {
         let t = any_table();
-        let j: usize = kani::any();
-        kani::assume(j < 4096);
-        kani::cover!(true, "c08_table_clone_same_bytes: reachable");
+        let i: usize = kani::any();
+        kani::assume(i < 512);
+        kani::cover!(true, "c08_table_clone_same_words: reachable");
         let c = t.clone();
-        let a = &t as *const PageTable as *const u8;
-        let b = &c as *const PageTable as *const u8;
         assert!(
-            unsafe { *a.add(j) == *b.add(j) },
-            "C08.PageTable_clone.same_bytes: byte j of the clone equals byte j of the original"
+            c.entries[i].entry == t.entries[i].entry,
+            "C08.PageTable_clone.same_words: word i of the clone equals word i of the original"
         );
     }
 }
